@@ -992,8 +992,8 @@ GENERATORS = {
 
 # cases per tier (the numbers are generator rounds, not lines)
 SIZES = {
-    'quick': {'C01': 4, 'C02': 6, 'C03': 5, 'C04': 150, 'C05': 60, 'C06': 500, 'C07': 150, 'C08': 300, 'C09': 40,
-              'C10': 80, 'C11': 4, 'C12': 400, 'C13': 60, 'C14': 60, 'C15': 150, 'C16': 25, 'C17': 120, 'C18': 160},
+    'quick': {'C01': 8, 'C02': 12, 'C03': 9, 'C04': 150, 'C05': 60, 'C06': 500, 'C07': 150, 'C08': 300, 'C09': 40,
+              'C10': 80, 'C11': 8, 'C12': 400, 'C13': 60, 'C14': 60, 'C15': 150, 'C16': 40, 'C17': 120, 'C18': 160},
     'thorough': {'C01': 300, 'C02': 600, 'C03': 400, 'C04': 20000, 'C05': 8000, 'C06': 200000, 'C07': 30000, 'C08': 24000,
                  'C09': 6000, 'C10': 12000, 'C11': 300, 'C12': 150000, 'C13': 30000, 'C14': 12000, 'C15': 20000, 'C16': 4000,
                  'C17': 20000, 'C18': 16000},
